@@ -43,6 +43,7 @@ func runC14(c *Ctx, pr *PropertyRun) {
 	c14DepthConst(c, pr)
 	c14ParseChecked(c, pr, entries)
 	c14Tables(c, pr)
+	decodePropTable(c, pr, "C14")
 }
 
 func c14Gate(c *Ctx, pr *PropertyRun, entries []*ssa.Function) {
